@@ -7,7 +7,7 @@ from ..expr import access_path, path_str, reaching_defs, norm_cond, origins, lea
 from .common import strip_casts, short, comparison
 
 UNITS = ['sdk/src/resource/resource.cc', 'sdk/src/resource/resource_detector.cc', 'sdk/src/common/env_variables.cc',
-         'sdk/src/logs/logger.cc', 'sdk/src/metrics/state/metric_collector.cc', 'sdk/src/trace/span.cc']
+         'sdk/src/logs/logger.cc', 'sdk/src/metrics/state/metric_collector.cc', 'sdk/src/trace/span.cc', 'sdk/src/common/disabled.cc']
 DRIVERS = []
 CANARIES = ['c18_canary.cc']
 
@@ -297,9 +297,43 @@ def rule_r5(ck, prog, rule='C18.R5'):
     ck.verdict(ok, rule, f, 'span-resource', sr[0] if sr else None, 'spans take the tracer\'s (provider) resource' if ok else 'a span does not receive its provider\'s resource')
 
 
+def rule_r2_disabled(ck, prog, rule='C18.R2'):
+    """OTEL_SDK_DISABLED is a boolean setting: it is read through the (case-insensitive) boolean reader and its value returned"""
+    f = prog.function('sdk::common::GetSdkDisabled')
+    g = Graph(prog, f, inline=None, sync_lambdas=False)
+    rd = reaching_defs(g)
+    reads = [p for p in g.points if p.n is not None and p.n['k'] == 'call' and strip_targs(p.n.get('c', '')).endswith('common::GetBoolEnvironmentVariable')]
+    ok = len(reads) == 1
+    why = 'GetSdkDisabled does not read the variable through GetBoolEnvironmentVariable: the value is no longer matched case-insensitively ("TRUE", "True" keep the SDK enabled)'
+    if ok:
+        out = strip_casts(f, reads[0].n['args'][1])
+        for r in g.returns():
+            e = strip_casts(f, r.n['e'])
+            if e['k'] == 'lit' and not e.get('v'):
+                continue
+            if e['k'] == 'ref' and e.get('id') == out.get('id'):
+                # the value returned is the reader's out-parameter or the literal false assigned on the "unset" edge
+                for (v, d) in rd.get(r.id, ()):
+                    if v != out['id']:
+                        continue
+                    dn = g.points[d].n
+                    if dn is reads[0].n or dn['k'] == 'declstmt':
+                        continue
+                    val = [vx for (vv, st, vx) in defs_in_node(f, dn) if vv == out['id']]
+                    if val and val[0] is not None and strip_casts(f, val[0])['k'] == 'lit' and not strip_casts(f, val[0]).get('v'):
+                        continue
+                    ok = False
+                    why = 'the value GetSdkDisabled returns is re-computed after the boolean reader delivered it'
+                continue
+            ok = False
+            why = 'GetSdkDisabled returns something other than the boolean reader\'s value'
+    ck.verdict(ok, rule, f, 'sdk-disabled-through-bool-reader', reads[0].n if reads else None,
+               'OTEL_SDK_DISABLED is read by GetBoolEnvironmentVariable and that value (false when unset) is returned' if ok else why)
+
+
 def run(ck, prog):
     ck.doc('C18.R1', 'Merge orientation/schema/constness; Create chain order; service.name fallback; pair split at the first =', 7)
-    ck.doc('C18.R2', 'out-parameter typestate of the environment readers and duration helpers', 12)
+    ck.doc('C18.R2', 'out-parameter typestate of the environment readers and duration helpers; OTEL_SDK_DISABLED through the boolean reader', 13)
     ck.doc('C18.R3', 'errno cleared before every strto* whose errno is read', 2)
     ck.doc('C18.R4', 'digit accumulation bounded; per-unit overflow guard uses the exact tick ratio', 7)
     ck.doc('C18.R5', 'span / log record / metric batch take the provider\'s resource', 3)
@@ -307,6 +341,7 @@ def run(ck, prog):
         _canary(ck, prog)
     rule_r1(ck, prog)
     rule_r2(ck, prog)
+    rule_r2_disabled(ck, prog)
     rule_r3(ck, prog)
     rule_r4(ck, prog)
     rule_r5(ck, prog)
